@@ -96,6 +96,8 @@ def check_tick(ctx, file, func, tag, events, problems, *, held_all, held_state, 
     where = f"{file}:{func} [{tag}]"
     for p in problems:
         ctx.error(f"{where}: {p}")
+    if problems:
+        return          # nothing is concluded from a partially understood tick
     loops = [e for e in events if e.kind == "LOOP-BEGIN"]
     is_held = lambda t: t.startswith("@") and any(t == "@" + h or t.startswith("@" + h + ".") for h in held_all)
     if readings_param is None:
@@ -201,9 +203,18 @@ def check_tick(ctx, file, func, tag, events, problems, *, held_all, held_state, 
         asserts = [e for e in events if e.kind == "ASSERT"]
         want = "!is_same_v" if control_param is not None else "is_same_v"
         oka = bool(asserts) and asserts[0].detail["text"] == want
-        ctx.oblige("CONTROL", where, f"static_assert({asserts[0].detail['text'] if asserts else None})", oka, file=file, func=func,
+        how = f"static_assert({asserts[0].detail['text'] if asserts else None})"
+        if not oka:
+            # not spelled as the literal static_assert: ask the compiler -- the overload called on the wrong kind of filter must not compile
+            mis = rtmodel.misuse_witnesses(ctx)
+            accepted = mis.get((control_param is not None, readings_param is not None))
+            oka = accepted is False
+            how = f"compile-fail witness: the overload called on a filter {'without' if control_param else 'with'} control inputs " + \
+                  ("is rejected" if oka else "COMPILES")
+        ctx.oblige("CONTROL", where, how, oka, file=file, func=func,
                    construct="control static_assert",
-                   msg=f"overload {'with' if control_param else 'without'} control lacks static_assert({want}<ControlT, false_type>)")
+                   msg=f"overload {'with' if control_param else 'without'} control is not restricted to filters {'with' if control_param else 'without'} "
+                       f"control inputs (no static_assert({want}<ControlT, false_type>), and calling it on the other kind of filter compiles)")
 
 
 def run(ctx: core.Ctx) -> int:
@@ -228,7 +239,8 @@ def run(ctx: core.Ctx) -> int:
     check_tick(ctx, rel, "ManagedFilter.tick", "python", te.events, te.problems, held_all=["current_time", "state", "covariance"],
                held_state=["state", "covariance"], readings_param="readings", output_param=names[0], control_param="control", lang="py")
     traces["python"] = canon(te.events)
-    flow_py(ctx, rel, cls, body, names)
+    if not te.problems:
+        flow_py(ctx, rel, cls, body, names)
     # "the Python and C++ runtimes issue the same sequence of filter calls": both step with the same maximum, i.e. the configured value reaches the
     # generated C++ constant without lossy formatting (C10's MAG rule on the generator)
     from . import c10 as _c10
